@@ -35,6 +35,9 @@ PLAIN = [
     [[["sub", [[["kind", "o"]], [["kind", "-"]]]], ["tag", "#", "t1", False]]],
     [[["desc", "lower case", "'", False, False]]],
     [[["create", ["short", "240101"], ["short", "240131"]]]],
+    # backslashes in quoted text are literal characters
+    [[["desc", "a\\b", "'", False, False]]],
+    [[["desc", "o\\d", "'", False, False], ["tag", "#", "t1", False]]],
     # a priority range and a kind: atoms that POOL with their like inside one conjunction
     [[["prio", 0, 1], ["tag", "#", "t1", False]]],
     [[["kind", "x~"]]],
